@@ -237,7 +237,10 @@ func c20(c *Ctx) {
 		r.Check(w == nil, "R2.candidate-gates", pfx+"covered", p.Pos(ap.Pos()), "only when in-range(node id, its cached radius, content id)", "a node whose reported radius does not cover the content (or another node's radius was used) can be offered it: "+p.PathString(w))
 		src := core.AnyFact(func(f core.Fact) bool {
 			isSrc := func(v ssa.Value) bool {
-				return core.Derives(v, func(x ssa.Value) bool { pa, ok := x.(*ssa.Parameter); return ok && pa.Parent() == gossip && isPtrToID(pa.Type()) }, core.DeriveOpts{})
+				return core.Derives(v, func(x ssa.Value) bool {
+					pa, ok := x.(*ssa.Parameter)
+					return ok && pa.Parent() == gossip && isPtrToID(pa.Type())
+				}, core.DeriveOpts{})
 			}
 			if f.Op == token.EQL && ((isSrc(f.X) && core.IsNilConst(f.Y)) || (isSrc(f.Y) && core.IsNilConst(f.X))) {
 				return true
@@ -327,7 +330,10 @@ func c20(c *Ctx) {
 			n++
 			key := fmt.Sprintf("%s radius-cache-set #%d", core.FuncName(fn), n)
 			val := ci.Common().Args[2]
-			fromParam := core.Derives(val, func(v ssa.Value) bool { pa, ok := v.(*ssa.Parameter); return ok && pa.Parent() == fn && strings.HasSuffix(pa.Type().String(), "Root") }, core.DeriveOpts{})
+			fromParam := core.Derives(val, func(v ssa.Value) bool {
+				pa, ok := v.(*ssa.Parameter)
+				return ok && pa.Parent() == fn && strings.HasSuffix(pa.Type().String(), "Root")
+			}, core.DeriveOpts{})
 			isMax := core.Derives(val, func(v ssa.Value) bool { g, ok := v.(*ssa.Global); return ok && g.Name() == "MaxDistance" }, core.DeriveOpts{})
 			switch {
 			case fromParam:
